@@ -10,10 +10,15 @@ mkdir -p "$ROOT/.bin"
 cd "$ROOT/engine" || exit 2
 cp /repo/go.sum go.sum 2>/dev/null
 go build -o "$ROOT/.bin/mkoverlay" ./cmd/mkoverlay || { echo "BUILD-FAILED mkoverlay" >&2; exit 2; }
-OV="$ROOT/.bin/ov-c20"
+REPO="${VERIF_REPO:-/repo}"; MODFLAG=""; BIN="$ROOT/.bin/c20"; OV="$ROOT/.bin/ov-c20"
+if [ -n "${VERIF_REPO:-}" ]; then
+  mkdir -p "$ROOT/.bin/alt"
+  sed "s#=> /repo#=> $VERIF_REPO#" go.mod > "$ROOT/.bin/alt/c20.mod"; cp go.sum "$ROOT/.bin/alt/c20.sum"
+  MODFLAG="-modfile=$ROOT/.bin/alt/c20.mod"; BIN="$ROOT/.bin/alt/c20"; OV="$ROOT/.bin/alt/ov-c20"
+fi
 rm -rf "$OV"
-"$ROOT/.bin/mkoverlay" -globals -out "$OV" -vsched "$ROOT/engine/vschedsrc" > "$ROOT/.bin/c20.rewrite.log" || { echo "BUILD-FAILED property=C20: the rewriter cannot instrument the current sources (the check could not run)" >&2; exit 2; }
-if ! go build -overlay "$OV/overlay.json" -tags "verif vsched" -ldflags=-checklinkname=0 -o "$ROOT/.bin/c20" ./cmd/c20 2>"$ROOT/.bin/c20.build.log"; then
+"$ROOT/.bin/mkoverlay" -repo "$REPO" -globals -out "$OV" -vsched "$ROOT/engine/vschedsrc" > "$ROOT/.bin/c20.rewrite.log" || { echo "BUILD-FAILED property=C20: the rewriter cannot instrument the current sources (the check could not run)" >&2; exit 2; }
+if ! go build $MODFLAG -overlay "$OV/overlay.json" -tags "verif vsched" -ldflags=-checklinkname=0 -o "$BIN" ./cmd/c20 2>"$ROOT/.bin/c20.build.log"; then
   echo "BUILD-FAILED property=C20 (the check could not run); see $ROOT/.bin/c20.build.log" >&2
   cat "$ROOT/.bin/c20.build.log" >&2
   exit 2
